@@ -10,6 +10,14 @@ rule's own flag, everything but it, random subsets).  Three verdicts are compare
 impl != region  -> failing input of the property (VIOLATION);  impl != model -> broken tie.
 
 Further input classes (each judged by the same three verdicts):
+  * SUB-SECOND components (`SUB_OFFSETS`, `START_FRACTIONS`): instants are microsecond-exact in /repo's data model and in the Lean
+    model, and the documented region is evaluated on the exact microsecond integers.  The lattice therefore also places every
+    decisive quantity at bound +- 1 us, +- 0.5 s, +- 999999 us (hand-built Request objects; on a whole-second timeline and on a
+    timeline all of whose instants carry .6 / .000001 / .999999 / .5 / .4 s), the degenerate stream at zero +- 1 us, random timelines
+    deviate by sub-second amounts -- and the XML TEXT stream renders the same kinds of deviation (validity through the expiration
+    and through the inception, interval / overlap / cycle, horizon, a gap of less than a second, deviations that stay inside a
+    min < max window) with 1..6 fraction digits (.5 / .50 / ... / .500000; starts with and without a sub-second part), so that a
+    loader that drops, rounds or misreads the fraction digits is seen both in the parsed instants and in the verdict.
   * ISOLATION (`isolate`): every lattice / degenerate timeline is also judged with ALL flags on under a policy in which the
     bounds of every rule but the responsible one are the hull of the timeline's own quantities (and the clock sits inside the
     horizon window), so that exactly one rule is responsible although none is switched off — the "never masks" clause with
@@ -57,6 +65,12 @@ TIMING_FLAGS = [
     "check_bundle_intervals",
 ]
 OFFSETS = [-DAY_US, -SEC, 0, SEC, DAY_US]
+# sub-second offsets from a bound: one microsecond, half a second, all but one microsecond of a second -- either side.  Instants are
+# microsecond-exact in /repo's data model (datetime / timedelta) and in the Lean model (Int microseconds); the documented region is
+# evaluated on the exact integers, so "bound + 1 us" is outside and "bound - 1 us" inside an inclusive upper bound.
+SUB_OFFSETS = [-999_999, -500_000, -1, 1, 500_000, 999_999]
+# sub-second component of the first inception of the shifted lattice (every instant of the timeline then carries it)
+START_FRACTIONS = [600_000, 1, 999_999, 500_000, 400_000]
 
 
 def region(bundles: list[tuple[int, int]], zp: dict[str, int], pol: dict[str, Any], now: int) -> dict[str, bool]:
@@ -134,60 +148,76 @@ def profiles(n: int) -> list[tuple[dict[str, int], dict[str, Any]]]:
 def lattice(n: int, r: Any, tier: str) -> list[tuple[str, list[tuple[int, int]], dict[str, int], dict[str, Any], int]]:
     """(tag, timeline, declared zsk policy, operator policy, now) with one decisive quantity on the lattice."""
     out = []
-    start = 1_500_000_000 * SEC
+    for pi, (zp, pol) in enumerate(profiles(n)):
+        # whole-second timeline: the classic lattice plus the sub-second offsets; then the same timeline with every instant carrying a
+        # sub-second component, probed at the bounds exactly and at the sub-second offsets
+        out += lattice_at(n, r, tier, zp, pol, 1_500_000_000 * SEC, OFFSETS + SUB_OFFSETS, "")
+        frac = START_FRACTIONS[(n + pi) % len(START_FRACTIONS)]
+        out += lattice_at(n, r, tier, zp, pol, 1_500_000_000 * SEC + frac, [0] + SUB_OFFSETS, f":frac{frac}")
+    return out
+
+
+def lattice_at(n: int, r: Any, tier: str, zp: dict[str, int], pol: dict[str, Any], start: int, offsets: list[int], suffix: str) -> list[tuple[str, list[tuple[int, int]], dict[str, int], dict[str, Any], int]]:
+    """the lattice over the honest timeline that starts at `start` (microseconds; may carry a sub-second component, then `suffix` names it)"""
+    out = []
     now0 = start - 5 * DAY_US
-    for zp, pol in profiles(n):
-        base = honest(n, start)
-        out.append(("honest", base, zp, pol, now0))
-        positions = range(n) if (tier == "thorough" or n <= 4) else sorted({0, 1, n // 2, n - 2, n - 1} & set(range(n)))
-        for pos in positions:
-            for d in OFFSETS:
-                # validity of bundle `pos` at each bound + d
-                for bound in ("min_validity", "max_validity"):
+    shifted = bool(suffix)
+    base = honest(n, start)
+    out.append(("honest" + suffix, base, zp, pol, now0))
+    positions = range(n) if (tier == "thorough" or n <= 4) else sorted({0, 1, n // 2, n - 2, n - 1} & set(range(n)))
+    if shifted and tier == "quick":
+        positions = sorted({0, n // 2, n - 1} & set(range(n)))
+    for pos in positions:
+        for d in offsets:
+            # validity of bundle `pos` at each bound + d
+            for bound in ("min_validity", "max_validity"):
+                t = list(base)
+                t[pos] = (t[pos][0], t[pos][0] + zp[bound] + d)
+                out.append((f"validity:{bound}:{pos}:{d}{suffix}", t, zp, pol, now0))
+            if pos + 1 < n:
+                # overlap of the pair (pos, pos+1) at each bound + d: move the later inception (and keep its validity)
+                for bound in ("min_overlap", "max_overlap"):
                     t = list(base)
-                    t[pos] = (t[pos][0], t[pos][0] + zp[bound] + d)
-                    out.append((f"validity:{bound}:{pos}:{d}", t, zp, pol, now0))
-                if pos + 1 < n:
-                    # overlap of the pair (pos, pos+1) at each bound + d: move the later inception (and keep its validity)
-                    for bound in ("min_overlap", "max_overlap"):
-                        t = list(base)
-                        inc = t[pos][1] - (zp[bound] + d)
-                        t[pos + 1] = (inc, inc + 21 * DAY_US)
-                        out.append((f"overlap:{bound}:{pos}:{d}", t, zp, pol, now0))
-                    # the gap edge: later inception at previous expiration + d, declared overlap window made wide
+                    inc = t[pos][1] - (zp[bound] + d)
+                    t[pos + 1] = (inc, inc + 21 * DAY_US)
+                    out.append((f"overlap:{bound}:{pos}:{d}{suffix}", t, zp, pol, now0))
+                # the gap edge: later inception at previous expiration + d, declared overlap window made wide
+                t = list(base)
+                t[pos + 1] = (t[pos][1] + d, t[pos][1] + d + 21 * DAY_US)
+                zgap = dict(zp, min_overlap=-2 * DAY_US, max_overlap=30 * DAY_US)
+                out.append((f"gap:{pos}:{d}{suffix}", t, zgap, pol, now0))
+                # interval of the pair at each bound + d: shift this and all later bundles
+                for bound in ("min_interval", "max_interval"):
                     t = list(base)
-                    t[pos + 1] = (t[pos][1] + d, t[pos][1] + d + 21 * DAY_US)
-                    zgap = dict(zp, min_overlap=-2 * DAY_US, max_overlap=30 * DAY_US)
-                    out.append((f"gap:{pos}:{d}", t, zgap, pol, now0))
-                    # interval of the pair at each bound + d: shift this and all later bundles
-                    for bound in ("min_interval", "max_interval"):
-                        t = list(base)
-                        delta = (pol[bound] + d) - (t[pos + 1][0] - t[pos][0])
-                        for k in range(pos + 1, n):
-                            t[k] = (t[k][0] + delta, t[k][1] + delta)
-                        out.append((f"interval:{bound}:{pos}:{d}", t, zp, pol, now0))
-                # horizon: bundle `pos` expires exactly (H+1) days ahead + d / exactly now + d
-                for H in (1, 180):
-                    p2 = dict(pol, horizon_days=H)
-                    out.append((f"horizon:far:{pos}:{H}:{d}", base, zp, p2, base[pos][1] - (H + 1) * DAY_US + d))
-                    out.append((f"horizon:past:{pos}:{H}:{d}", base, zp, p2, base[pos][1] + d))
-        for d in OFFSETS:
-            cyc = base[-1][0] - base[0][0]
-            out.append((f"cycle:min:{d}", base, zp, dict(pol, min_cycle=cyc + d, max_cycle=cyc + 5 * DAY_US), now0))
-            out.append((f"cycle:max:{d}", base, zp, dict(pol, min_cycle=cyc - 5 * DAY_US, max_cycle=cyc + d), now0))
-        for dn in (-1, 0, 1):
-            out.append((f"count:{dn}", base, zp, dict(pol, num_bundles=n + dn), now0))
-        # random timelines
-        for k in range(6 if tier == "quick" else 40):
-            t = []
-            inc = start
-            for _ in range(n):
-                val = r.choice([zp["min_validity"], zp["max_validity"], r.randrange(10, 30) * DAY_US + r.choice([0, 1, -1]) * SEC])
-                t.append((inc, inc + val))
-                inc += r.choice([pol["min_interval"], pol["max_interval"], r.randrange(5, 15) * DAY_US + r.choice([0, SEC, -SEC])])
-            if r.random() < 0.3:
-                r.shuffle(t)
-            out.append((f"random:{k}", t, zp, pol, r.choice([now0, start + r.randrange(-200, 200) * DAY_US])))
+                    delta = (pol[bound] + d) - (t[pos + 1][0] - t[pos][0])
+                    for k in range(pos + 1, n):
+                        t[k] = (t[k][0] + delta, t[k][1] + delta)
+                    out.append((f"interval:{bound}:{pos}:{d}{suffix}", t, zp, pol, now0))
+            # horizon: bundle `pos` expires exactly (H+1) days ahead + d / exactly now + d
+            for H in (1, 180):
+                p2 = dict(pol, horizon_days=H)
+                out.append((f"horizon:far:{pos}:{H}:{d}{suffix}", base, zp, p2, base[pos][1] - (H + 1) * DAY_US + d))
+                out.append((f"horizon:past:{pos}:{H}:{d}{suffix}", base, zp, p2, base[pos][1] + d))
+    for d in offsets:
+        cyc = base[-1][0] - base[0][0]
+        out.append((f"cycle:min:{d}{suffix}", base, zp, dict(pol, min_cycle=cyc + d, max_cycle=cyc + 5 * DAY_US), now0))
+        out.append((f"cycle:max:{d}{suffix}", base, zp, dict(pol, min_cycle=cyc - 5 * DAY_US, max_cycle=cyc + d), now0))
+    if shifted:
+        return out
+    for dn in (-1, 0, 1):
+        out.append((f"count:{dn}", base, zp, dict(pol, num_bundles=n + dn), now0))
+    # random timelines (deviations of whole seconds and of sub-second amounts)
+    jitter = [0, SEC, -SEC, 0, 1, -1, 500_000, -500_000, 999_999, -999_999]
+    for k in range(6 if tier == "quick" else 40):
+        t = []
+        inc = start + r.choice([0, 0] + START_FRACTIONS)
+        for _ in range(n):
+            val = r.choice([zp["min_validity"], zp["max_validity"], r.randrange(10, 30) * DAY_US + r.choice(jitter)])
+            t.append((inc, inc + val))
+            inc += r.choice([pol["min_interval"], pol["max_interval"], r.randrange(5, 15) * DAY_US + r.choice(jitter)])
+        if r.random() < 0.3:
+            r.shuffle(t)
+        out.append((f"random:{k}", t, zp, pol, r.choice([now0, start + r.randrange(-200, 200) * DAY_US])))
     return out
 
 
@@ -267,7 +297,7 @@ def isolate(t: list[tuple[int, int]], zp: dict[str, int], pol: dict[str, Any], n
 
 # ---- degenerate timelines: quantities exactly zero / negative -----------------------------------------------------
 
-ZERO_VALUES = [0, -SEC, SEC, -DAY_US]
+ZERO_VALUES = [0, -SEC, SEC, -DAY_US, -1, 1]  # exactly zero, one second / one microsecond either side, a whole day negative
 
 
 def bound_variants(lo: str, hi: str) -> list[tuple[str, dict[str, int]]]:
@@ -366,8 +396,9 @@ class ProcessTZ:
         time.tzset()
 
 
-def fmt_instant(us: int, designator: str) -> str:
-    """xsd:dateTime text of a UTC instant, computed from the integer (no datetime / zone machinery involved)"""
+def fmt_instant(us: int, designator: str, pad: int = 0) -> str:
+    """xsd:dateTime text of a UTC instant, computed from the integer (no datetime / zone machinery involved).  A sub-second component is
+    written with the fewest digits that state it exactly plus `pad` trailing zeros, six digits at most (.5 / .50 / ... / .500000)."""
     days, rem = divmod(us, DAY_US)
     # civil-from-days (proleptic Gregorian), Howard Hinnant's algorithm
     z = days + 719468
@@ -383,7 +414,8 @@ def fmt_instant(us: int, designator: str) -> str:
     secs, frac = divmod(rem, SEC)
     text = f"{y:04d}-{m:02d}-{d:02d}T{secs // 3600:02d}:{secs // 60 % 60:02d}:{secs % 60:02d}"
     if frac:
-        text += f".{frac:06d}"
+        digits = f"{frac:06d}".rstrip("0")
+        text += "." + digits + "0" * min(pad, 6 - len(digits))
     return text + {"naive": "", "Z": "Z", "offset": "+00:00"}[designator]
 
 
@@ -416,13 +448,15 @@ def ksr_xml(timeline: list[tuple[int, int]], zp: dict[str, int], style: str) -> 
     ]
     for n, (i, e) in enumerate(timeline):
         si, se = (style, style) if style != "mixed" else (("naive", "offset") if n % 2 == 0 else ("Z", "naive"))
+        # number of fraction digits: minimal .. six, varying with the position and the spelling (deterministic, replayable)
+        pi, pe = (n + len(style)) % 6, (2 * n + 1 + len(style)) % 6
         lines += [
-            f'    <RequestBundle id="b{n}">', f"      <Inception>{fmt_instant(i, si)}</Inception>", f"      <Expiration>{fmt_instant(e, se)}</Expiration>",
+            f'    <RequestBundle id="b{n}">', f"      <Inception>{fmt_instant(i, si, pi)}</Inception>", f"      <Expiration>{fmt_instant(e, se, pe)}</Expiration>",
             f'      <Key keyIdentifier="zsk" keyTag="{_TZ_KEY["tag"]}">', "        <TTL>172800</TTL>", "        <Flags>256</Flags>", "        <Protocol>3</Protocol>",
             "        <Algorithm>8</Algorithm>", f"        <PublicKey>{_TZ_KEY['pk']}</PublicKey>", "      </Key>",
             '      <Signature keyIdentifier="zsk">', "        <TTL>172800</TTL>", "        <TypeCovered>DNSKEY</TypeCovered>", "        <Algorithm>8</Algorithm>",
-            "        <Labels>0</Labels>", "        <OriginalTTL>172800</OriginalTTL>", f"        <SignatureExpiration>{fmt_instant(e, se)}</SignatureExpiration>",
-            f"        <SignatureInception>{fmt_instant(i, si)}</SignatureInception>", f"        <KeyTag>{_TZ_KEY['tag']}</KeyTag>", "        <SignersName>.</SignersName>",
+            "        <Labels>0</Labels>", "        <OriginalTTL>172800</OriginalTTL>", f"        <SignatureExpiration>{fmt_instant(e, se, pe)}</SignatureExpiration>",
+            f"        <SignatureInception>{fmt_instant(i, si, pi)}</SignatureInception>", f"        <KeyTag>{_TZ_KEY['tag']}</KeyTag>", "        <SignersName>.</SignersName>",
             "        <SignatureData>AAAA</SignatureData>", "      </Signature>", "    </RequestBundle>",
         ]
     lines += ["  </Request>", "</KSR>", ""]
@@ -442,8 +476,9 @@ def tz_cases(r: Any, tier: str) -> list[tuple[str, list[tuple[int, int]], dict[s
     first = 1_890_777_600 * SEC  # 2029-12-01T00:00:00Z
     step = 26 if tier == "quick" else 13
     tods = [0, 2 * HOUR + 1800 * SEC, 12 * HOUR, 23 * HOUR + 3599 * SEC, 1 * HOUR, 15 * HOUR + 1800 * SEC]
+    fracs = [0, 600_000, 0, 1, 500_000, 0, 999_999, 400_000]  # sub-second component of the first inception (whole seconds every other time)
     for k, day in enumerate(range(0, 420, step)):
-        start = first + day * DAY_US + tods[k % len(tods)]
+        start = first + day * DAY_US + tods[k % len(tods)] + fracs[k % len(fracs)]
         n = 3
         zp, pol = profiles(n)[0]
         base = honest(n, start, I, V)
@@ -468,6 +503,36 @@ def tz_cases(r: Any, tier: str) -> list[tuple[str, list[tuple[int, int]], dict[s
         for d in (-SEC, 0, SEC, HOUR, -HOUR):
             out.append((f"tz:horizon:far:{k}:{d}", base, zp, ph, only("signature_check_expire_horizon"), base[-1][1] - (H + 1) * DAY_US + d))
             out.append((f"tz:horizon:past:{k}:{d}", base, zp, ph, only("signature_check_expire_horizon"), base[0][1] + d))
+        # SUB-SECOND deviations, visible on the text path only if the loader keeps the fraction digits: the decisive quantity misses its
+        # (min == max) bound by 1 us / half a second / all but 1 us of a second, either side -- every one of them is outside the region
+        for d in SUB_OFFSETS:
+            t = list(base)
+            t[pos] = (t[pos][0], t[pos][1] + d)
+            out.append((f"tz:sub:validity:{k}:{pos}:{d}", t, zp, pol, only("signature_validity_match_zsk_policy") if (k + d) % 2 else all_on, now0))
+            t = list(base)
+            t[pos] = (t[pos][0] + d, t[pos][1])  # the INCEPTION carries the deviation
+            out.append((f"tz:sub:validity-inception:{k}:{pos}:{d}", t, zp, pol, only("signature_validity_match_zsk_policy"), now0))
+            t = list(base)
+            for j in range(1, n):
+                t[j] = (t[j][0] + d, t[j][1] + d)
+            own = ["check_bundle_intervals", "check_bundle_overlap", "check_cycle_length"][(k + abs(d)) % 3]
+            out.append((f"tz:sub:{own}:{k}:{d}", t, zp, pol, only(own), now0))
+            if abs(d) != 999_999:
+                out.append((f"tz:sub:horizon:far:{k}:{d}", base, zp, ph, only("signature_check_expire_horizon"), base[-1][1] - (H + 1) * DAY_US + d))
+                out.append((f"tz:sub:horizon:past:{k}:{d}", base, zp, ph, only("signature_check_expire_horizon"), base[0][1] + d))
+        # ... and sub-second deviations that stay INSIDE a min < max window (wide profile): must be accepted
+        zw3, pw3 = profiles(n)[1]
+        for d in (SUB_OFFSETS[k % 6], SUB_OFFSETS[(k + 3) % 6]):
+            t = list(base)
+            t[pos] = (t[pos][0], t[pos][1] + d)
+            out.append((f"tz:sub:inside-wide-window:{k}:{pos}:{d}", t, zw3, pw3, all_on, now0))
+        # a gap of less than a second between consecutive bundles (declared overlap window [0, 30 d]: a document cannot state a negative duration)
+        if n >= 2:
+            for d in (1, 500_000, -1):
+                t = list(base)
+                t[1] = (t[0][1] + d, t[0][1] + d + V)
+                t[2:] = [(t[1][0] + (j - 1) * I, t[1][1] + (j - 1) * I) for j in range(2, n)]
+                out.append((f"tz:sub:gap:{k}:{d}", t, dict(zp, min_overlap=0, max_overlap=30 * DAY_US), pol, only("check_bundle_overlap"), now0))
         if k % 4 == 0:
             # a whole nine-bundle cycle with the wide profile, a random bundle's validity on a bound
             zw, pw = profiles(9)[1]
@@ -523,7 +588,11 @@ def run(tier: str, driver_ok: bool) -> Result:
         "mixed) through request_from_xml and load_ksr under process time zones UTC, America/New_York, Australia/Lord_Howe, "
         "Asia/Kolkata, Europe/Berlin (TZ + tzset), three- and nine-bundle timelines starting every 26 d (thorough: 13 d) over 14 "
         "months so that every DST switch is straddled, bounds hit exactly and missed by 1 h / 1 s, parsed instants compared with "
-        "the instants the text denotes; non-trivial = distinct (timeline, policy, flags, now[, zone, spelling]) input"
+        "the instants the text denotes; sub-second components: every lattice quantity also at bound +-1 us / +-0.5 s / +-999999 us on "
+        "whole-second timelines and on timelines whose instants all carry a sub-second part, degenerate quantities at 0 +-1 us, random "
+        "sub-second deviations; the same deviations (validity via expiration and via inception, interval / overlap / cycle, horizon, "
+        "sub-second gap, inside a min<max window) through the XML text path with 1..6 fraction digits (quick: under UTC and one rotating "
+        "non-UTC zone); non-trivial = distinct (timeline, policy, flags, now[, zone, spelling]) input"
     )
     r = lib.rng("C05")
     cases: list[dict[str, Any]] = []
@@ -546,6 +615,8 @@ def run(tier: str, driver_ok: bool) -> Result:
             for kind, gen in (("lattice", lattice), ("degenerate", degenerate)):
                 for tag, timeline, zp, pol, now in gen(n, r, tier):
                     res.bump("class:" + kind)
+                    if any(x % SEC for b in timeline for x in b) or now % SEC:
+                        res.bump("class:" + kind + ":with-sub-second-instants")
                     for flags in flag_sets(tag, r, tier):
                         add(tag, n, timeline, zp, pol, flags, now, clock)
                     rule = tag.split(":")[0]
@@ -579,10 +650,13 @@ def run(tier: str, driver_ok: bool) -> Result:
 
     # environment independence: the same XML texts under several process time zones
     tzc = tz_cases(r, tier)
-    for zname, posix, offset in TZ_ZONES:
+    for zi, (zname, posix, offset) in enumerate(TZ_ZONES):
         with ProcessTZ(zname, posix, offset) as ptz:
             res.bump(f"tz:zone:{zname} (TZ={ptz.value})", 0)
             for ci, (tag, timeline, zp, pol, flags, now) in enumerate(tzc):
+                sub = tag.split(":")[1] == "sub"
+                if tier == "quick" and sub and zi not in (0, 1 + ci % (len(TZ_ZONES) - 1)):
+                    continue  # quick: a sub-second case is judged under UTC and under one of the non-UTC zones (rotating)
                 for si, style in enumerate(STYLES):
                     if tier == "quick" and tag.split(":")[1] != "honest" and (ci + si) % 2:
                         continue  # quick: non-honest cases alternate between two of the four spellings
@@ -597,6 +671,11 @@ def run(tier: str, driver_ok: bool) -> Result:
                     res.bump(f"tz:zone:{zname} (TZ={ptz.value})")
                     res.bump("tz:spelling:" + style)
                     res.bump("tz:path:" + ("load_ksr" if case["via_file"] else "request_from_xml"))
+                    for inst in (x for b in timeline for x in b):
+                        if inst % SEC:
+                            res.bump("xml:instant-with-fraction-digits:" + str(len(f"{inst % SEC:06d}".rstrip("0"))) + "-significant")
+                    if sub:
+                        res.bump("xml:sub-second-case:" + tag.split(":")[2])
 
     model = run_driver(lines) if driver_ok else [None] * len(lines)
     for c, m in zip(cases, model):
@@ -609,13 +688,16 @@ def run(tier: str, driver_ok: bool) -> Result:
             if not any(s["case"]["tag"].split(":")[0] == rule for s in res.samples):
                 res.sample({"case": case, "impl": impl, "model": m, "documented_region_accepts": c["want"]})
         impl_accept = "ok" in impl
-        key = rule if rule != "tz" else "tz:" + case["tag"].split(":")[1]
+        key = rule if rule != "tz" else "tz:" + ":".join(case["tag"].split(":")[1:3] if case["tag"].split(":")[1] == "sub" else case["tag"].split(":")[1:2])
         if "tz" in case and c["parsed"] is not None:
             denoted = sorted(case["timeline"], key=lambda b: (b[1], b[0]))
             if [tuple(x) for x in c["parsed"]] != [tuple(x) for x in denoted]:
+                got_flat, den_flat = [x for b in c["parsed"] for x in b], [x for b in denoted for x in b]
+                within_a_second = len(got_flat) == len(den_flat) and all(abs(a - b) < SEC for a, b in zip(got_flat, den_flat))
                 res.violation(
-                    "loader: the instants parsed from the XML text are not the UTC instants the text denotes (process time zone dependent)",
-                    case, key="tz:parsed-instants", parsed=c["parsed"], denoted=denoted,
+                    "loader: the instants parsed from the XML text are not the UTC instants the text denotes "
+                    + ("(they differ by less than a second: the fraction digits of the text are not kept exactly)" if within_a_second else "(process time zone dependent)"),
+                    case, key="tz:parsed-instants" + (":sub-second" if within_a_second else ""), parsed=c["parsed"], denoted=denoted,
                 )
         if "error" in impl:
             res.violation("timing rules: implementation ends in a non-policy error", case, key=f"error:{key}", impl=impl)
